@@ -13,7 +13,7 @@ from .c19 import ref_match
 
 PID = "C13"
 RULE = (
-    "cases = 1..4 watched filters (wildcards in instance/major/minor) registered before start, a timing configuration "
+    "exhaustive: every script of bounded length over {offer A ttl 1 / infinite, stop-offer A, offer B} x timing prefixes relative to the next library timer (find round or TTL deadline) for two watched filters; random: cases = 1..4 watched filters (wildcards in instance/major/minor) registered before start, a timing configuration "
     "(initial-delay window from {0,0.01,0.1,1}, 0..4 repetitions, base delay from {0.01,0.05,0.2}, find TTL), a drawn "
     "initial-delay fraction, and a script of offers (TTL 1/3/infinite), stop-offers and waits from 2 sources for services "
     "matching any subset of the filters (or none), each step placed by delay or relative to pending library timers (the "
